@@ -130,6 +130,10 @@ func (s *memSource) SetReadDeadline(t time.Time) error {
 
 func (s *memSource) Read(buf []byte) (int, error) {
 	k := s.w.log.hit("read")
+	if f, ok := s.w.faultRec("read", k); ok && f.Class == "fatal-slow" {
+		time.Sleep(f.SlowBy) // the read stays blocked (e.g. past the run's deadline) and then fails
+		return 0, fmt.Errorf("read: %w", errWireInjected)
+	}
 	if c, ok := s.w.fault("read", k); ok {
 		switch c {
 		case "fatal":
